@@ -8,15 +8,17 @@ that changes it returns  res (result * state).  Stores go through the class dict
 The HEADER is not part of the state: self.shape / self.n_slices / self.classifications and the class tables are typed
 parameters as in t_src_ext.py, and get_valid_classes / get_multiplicity / _get_const_period / is_constant / is_repeating are
 the translations of coq/Generated/T_src_ext.v (imported).
-Translated: get_classification, get_class_dict, get_values_and_class, _get_changed_class (readers of the state),
-_change_class, _simplify (state-changing).
-coq/Ext/SrcEqState.v proves that on a content that holds the per-key states of the model they compute what
-Ext.Model.change_class_k / simplify_k compute."""
+Translated: get_classification, get_class_dict, get_values_and_class, get_values, get_keys, _get_changed_class (readers of the state),
+_change_class, _simplify (state-changing), _global_slice_subset, _copy_slice, _copy_sample, get_subset (stage C: two instances),
+_insert_slice, _insert_non_slice, _insert_sample, _insert (stage D: the content of `other` is threaded too) and from_sequence
+(a class method over a list of instances).
+coq/Ext/SrcEqState.v, SrcEqSubset.v, SrcEqSample.v, SrcEqGetSubset.v, SrcEqInsert.v, SrcEqInsertAll.v, SrcEqFromSeq.v prove that on
+contents that hold the per-key states of the model they compute what the per-key functions of Ext/Model.v compute."""
 from astlib import *      # noqa: F401,F403
 from py2coq import Fn, translate_all, NAT, BOOL, STR, DYN, UNIT, OPAQUE, OBJ, LIST, OPT, PAIR, DICT, CNAME, TOKEN
 
 WHAT = ("dcmmeta.DcmMetaExtension.get_classification, get_class_dict, get_values_and_class, _get_changed_class, _change_class, "
-        "_simplify (state-passing translation by tools/tables/py2coq.py)")
+        "_simplify, get_subset, _copy_slice, _copy_sample, _insert*, from_sequence (state-passing translation by tools/tables/py2coq.py)")
 
 SRC = 'src/dcmstack/dcmmeta.py'
 CLS = 'DcmMetaExtension'
